@@ -62,6 +62,19 @@ func c10Case(seed uint64, part, idx int) *core.Case {
 			return core.NewCase("schema", "schema", rn.RenderSDoc(&model.SDoc{Items: out}))
 		}
 	}
+	if idx%50 == 49 {
+		// a schema with more types than any truncation constant someone might pick for candidate lists, many of them one
+		// edit apart, and documents that misspell them
+		var b strings.Builder
+		n := 110 + r.Intn(120)
+		b.WriteString("type Query { t0: T0 }\n")
+		for k := 0; k < n; k++ {
+			fmt.Fprintf(&b, "type T%d { f%d: Int f%dx: Int t: T%d }\n", k, k, k, (k+1)%n)
+		}
+		k1, k2 := r.Intn(n), r.Intn(n)
+		doc := fmt.Sprintf("{ t0 { ...A ...B } } fragment A on T%dq { f%d } fragment B on T%d { f%dq ... on Tq%d { f0 } }", k1, k1, k2, k2, k1)
+		return core.NewCase("pair", "schema", b.String(), "doc", doc)
+	}
 	mg := tsys.Merge(items)
 	g := dgen.New(r, mg, &dgen.Opts{MaxDepth: 1 + r.Intn(3), MaxOps: 1 + r.Intn(3), Introspect: idx%3 == 0})
 	doc := g.Doc()
